@@ -2,8 +2,11 @@ package harness
 
 import (
 	"fmt"
+	"math"
 	"sort"
+	"strconv"
 	"strings"
+	"time"
 )
 
 func init() {
@@ -88,9 +91,14 @@ func genM3(g *Gen, p *Program, o m3GenOpts) {
 			sz += len(k) + len(v) + 10
 		}
 		if kind == "m3ah" {
-			if g.Bool(50) {
+			// (value bounds 1, 2, 5 and duration bounds 1s, 2s, 5s are the same numbers:
+			// whatever is kept per bucket set must not be kept per list of numbers)
+			switch g.Intn(3) {
+			case 0:
 				op.B = &BucketSpec{Bits: []uint64{f64bits(1), f64bits(2), f64bits(5)}}
-			} else {
+			case 1:
+				op.B = &BucketSpec{Dur: true, Durs: []int64{1e9, 2e9, 5e9}}
+			default:
 				op.B = &BucketSpec{Dur: true, Durs: []int64{1e6, 1e9}}
 			}
 			sz += 80
@@ -111,7 +119,11 @@ func genM3(g *Gen, p *Program, o m3GenOpts) {
 		for k := g.Range(1, 3); k > 0; k-- {
 			op := Op{K: "m3bucket", S: h.m, M: nextM}
 			if h.spec.Dur {
-				op.I = pick(g, int64(1e6), int64(1e9), int64(9223372036854775807))
+				// an upper bound of the histogram's own specification (or the catch-all)
+				op.I = int64(9223372036854775807)
+				if i := g.Intn(len(h.spec.Durs) + 1); i < len(h.spec.Durs) {
+					op.I = h.spec.Durs[i]
+				}
 			} else {
 				op.F = f64bits(pick(g, 1.0, 2.0, 5.0, 1.7976931348623157e308))
 			}
@@ -796,6 +808,7 @@ func checkC13(env *Env) []Violation {
 		upper float64
 		id    string
 		rng   string
+		dur   bool
 	}
 	per := map[string][]bk{}
 	st := env.m3()
@@ -816,13 +829,25 @@ func checkC13(env *Env) []Violation {
 						if bkTag == "" {
 							bkTag = "bucket"
 						}
-						per[e.h.parent.name+tagsKey(e.h.parent.tags)] = append(per[e.h.parent.name+tagsKey(e.h.parent.tags)], bk{u, m.tags[idTag], m.tags[bkTag]})
+						per[e.h.parent.name+tagsKey(e.h.parent.tags)] = append(per[e.h.parent.name+tagsKey(e.h.parent.tags)], bk{u, m.tags[idTag], m.tags[bkTag], e.h.parent.spec.Dur})
 					}
 				}
 			}
 		}
 	}
 	for name, list := range per {
+		// the bucket-range tag names the bucket's own bounds, written the way its
+		// kind is written: "lower-upper" with durations as durations (1s, 2m0s),
+		// values as decimal numbers, and -infinity / infinity at the ends
+		for _, b := range list {
+			if hi, ok := rangeUpper(b.rng, b.dur); !ok {
+				a.out = append(a.out, vf("bucket-range-tag", "histogram %s: the bucket-range tag %q of the bucket with upper bound %v is not a pair of %s", name, b.rng, b.upper, map[bool]string{true: "durations", false: "numbers"}[b.dur]))
+				break
+			} else if !(hi == b.upper || math.Abs(hi-b.upper) <= 1e-6*math.Max(1, math.Abs(b.upper)) || (math.IsInf(hi, 1) && b.upper >= math.MaxFloat64/2) || (math.IsInf(hi, 1) && b.dur && b.upper >= math.MaxInt64/2)) {
+				a.out = append(a.out, vf("bucket-range-tag", "histogram %s: the bucket with upper bound %v carries the bucket-range tag %q", name, b.upper, b.rng))
+				break
+			}
+		}
 		for i := range list {
 			for j := range list {
 				// one bucket, one pair of bucket tags; different buckets, different tags
@@ -839,6 +864,38 @@ func checkC13(env *Env) []Violation {
 		}
 	}
 	return a.out
+}
+
+// rangeUpper parses "lower-upper" as written for a value (dur=false) or a
+// duration (dur=true) bucket and returns the upper bound (in the unit the
+// harness keeps bounds in: the number itself, or nanoseconds).
+func rangeUpper(s string, dur bool) (float64, bool) {
+	one := func(x string) (float64, bool) {
+		switch x {
+		case "infinity":
+			return math.Inf(1), true
+		case "-infinity":
+			return math.Inf(-1), true
+		}
+		if dur {
+			d, err := time.ParseDuration(x)
+			return float64(d), err == nil
+		}
+		v, err := strconv.ParseFloat(x, 64)
+		return v, err == nil
+	}
+	for i := 1; i < len(s); i++ {
+		if s[i] != '-' {
+			continue
+		}
+		if _, ok := one(s[:i]); !ok {
+			continue
+		}
+		if hi, ok := one(s[i+1:]); ok {
+			return hi, true
+		}
+	}
+	return 0, false
 }
 
 func checkC12(env *Env) []Violation {
